@@ -387,7 +387,7 @@ impl Check for C06 {
         if fam >= 1 {
             let text = if fam == 1 { super::scale::programs()[idx as usize].clone() } else { key_programs()[idx as usize].clone() };
             ctx.case_text(&text);
-            let opts = JudgeOpts { limits: Limits { steps: 400_000, depth: 150 }, ..Default::default() };
+            let opts = JudgeOpts { limits: Limits { steps: 3_000_000, depth: 150 }, ..Default::default() };
             if let (Judged::Agree | Judged::Violation, _) = judge(&text, b"", &opts, ctx) {
                 ctx.nontrivial();
             }
